@@ -19,6 +19,8 @@ VARIANTS = {
     "randomize_graph_partial_und": (0, 0, 0, 1, 0),
     "randmio_und_signed": (0, 0, 0, 0, 1),
     "randmio_dir_signed": (1, 0, 0, 0, 1),
+    # no edge-list hooks: judged on the returned matrix only (final clauses of Trace_Rewire)
+    "randomizer_bin_und": (0, 0, 0, 0, 0),
 }
 
 
@@ -62,7 +64,11 @@ def exec_job(job):
     mu._verif_sinks.append(sink)
     try:
         f = getattr(bct, fn)
-        if mask:
+        if fn == "randomizer_bin_und":
+            out = f(Rarg, job["alpha"], seed=r)
+            eff = -1
+            rec["zero_requested"] = int(job["alpha"] == 0)
+        elif mask:
             out = f(Rarg, np.array(job["B"], dtype=float), job["maxswap"], seed=r)
             eff = events[-1]["eff"] if events else 0
             eff = sum(e["acc"] for e in events)
